@@ -87,10 +87,17 @@ type c12Run struct {
 	usedLd  bool
 }
 
+// c12ElideEOF also puts the EOF type into the elision set (EOF is never elided: the stream always ends there).
+var c12ElideEOF bool
+
 func c12New(toks []lexer.Token) (*c12Run, string) {
 	var pl *lexer.PeekingLexer
 	var err error
-	if p, v, st := mon.Guard(func() { pl, err = lexer.Upgrade(&sliceLexer{toks: toks}, tA, tB) }); p {
+	el := []lexer.TokenType{tA, tB}
+	if c12ElideEOF {
+		el = append(el, lexer.EOF)
+	}
+	if p, v, st := mon.Guard(func() { pl, err = lexer.Upgrade(&sliceLexer{toks: toks}, el...) }); p {
 		return nil, "Upgrade panicked: " + v + " " + st
 	}
 	if err != nil {
@@ -322,7 +329,12 @@ func c12Child(c *mon.Child) {
 			continue
 		}
 		c.Begin(key, c12StreamString(toks)+" "+c12HistString(hist))
+		c12ElideEOF = i%5 == 4
+		if c12ElideEOF {
+			c.Feature("cases_with_EOF_type_in_the_elision_set")
+		}
 		c12Case(c, toks, hist, rng.Fork(i), false)
+		c12ElideEOF = false
 		c.End(key)
 	}
 	if !c.Thorough() {
